@@ -16,11 +16,13 @@ from vf.engines import sx
 from collections import Counter
 
 LEVEL = 'model_checking'
+FLUSH_EXC = ('TransactionIntegrityError', 'IntegrityError', 'UnresolvableCyclicDependency', 'CommitException', 'OperationalError',
+             'OptimisticCheckError', 'UnrepeatableReadError')   # raised by an implicit flush / load, not by the modification itself
 WATCH = ('create', 'set', 'setm', 'add', 'remove', 'clear', 'assign', 'delete')
 
 def twins(env, fixture, prefix, op):
     res = ('resolve', tuple(sx.operands(op)))
-    tail = [('view_noflush',), ('commit',)]
+    tail = [('view_counts',), ('view_noflush',), ('commit',)]
     a = env.run(list(prefix) + [res] + tail, fixture, track_dumps=True)
     b = sx.Exec(env, fixture, track_dumps=True)
     try:
@@ -32,9 +34,9 @@ def twins(env, fixture, prefix, op):
             n = len(b.obs)
             b.obs_call = o
             if o[0] == 'exc' and not died:
-                b.apply(tail[0])
+                b.apply(tail[0]); b.apply(tail[1])
                 b.dumps = [env.dump()]
-                b.apply(tail[1])
+                b.apply(tail[2])
             b.call_died = died
     finally: b.finish()
     return a, b
@@ -42,9 +44,14 @@ def twins(env, fixture, prefix, op):
 def compare(env, a, b):
     """list of differing components between twin A (call not made) and twin B (call raised)"""
     if a.skipped or b.skipped: return None
-    if a.obs[-3][0] != 'ok': return None               # the operand look-up itself fails
+    if a.obs[-4][0] != 'ok': return None               # the operand look-up itself fails
     if b.obs_call[0] != 'exc' or b.call_died: return None
     d = []
+    ka, kb = a.obs[-3], b.obs[-3]
+    if ka != kb:
+        if ka[0] == 'ok' and kb[0] == 'ok':
+            d.append('counts[%s]' % ','.join(sorted(set(k.split(':')[0] + '.' + k.split('.')[1] for k in set(ka[1]) | set(kb[1]) if ka[1].get(k) != kb[1].get(k)))))
+        else: d.append('counts:%s->%s' % (ka[0] if ka[0] == 'ok' else ka[1], kb[0] if kb[0] == 'ok' else kb[1]))
     va, vb = a.obs[-2], b.obs[-2]
     if va != vb:
         if va[0] == 'ok' and vb[0] == 'ok':
@@ -58,13 +65,27 @@ def compare(env, a, b):
         else: d.append('view:%s->%s' % (va[0] if va[0] == 'ok' else va[1], vb[0] if vb[0] == 'ok' else vb[1]))
     ca, cb = a.obs[-1], b.obs[-1]
     if ca != cb: d.append('commit:%s->%s' % (ca[0] if ca[0] == 'ok' else ca[1], cb[0] if cb[0] == 'ok' else cb[1]))
-    if Counter(a.writes()) != Counter(b.writes()):
-        wa, wb = Counter(a.writes()), Counter(b.writes())
+    if Counter(norm_writes(a.writes())) != Counter(norm_writes(b.writes())):
+        wa, wb = Counter(norm_writes(a.writes())), Counter(norm_writes(b.writes()))
         extra = sorted(set(s.split()[0] + ' ' + s.split('"')[1] for (s, _), n in (wb - wa).items()))
         missing = sorted(set(s.split()[0] + ' ' + s.split('"')[1] for (s, _), n in (wa - wb).items()))
         d.append('writes[+%s -%s]' % (','.join(extra), ','.join(missing)))
     if a.dumps and b.dumps and a.dumps[-1] != b.dumps[-1]: d.append('rows')
     return d
+
+def norm_writes(ws):
+    """the optimistic-check part of an UPDATE/DELETE WHERE clause depends on which attributes were READ
+    (a failing call may legitimately read): keep the statement up to the primary-key criterion only"""
+    out = []
+    for sql, args in ws:
+        if sql.startswith(('UPDATE', 'DELETE')) and '\n  AND ' in sql:
+            head = sql.split('\n  AND ')[0]
+            try: vals = eval(args)
+            except Exception: vals = None
+            if isinstance(vals, tuple): args = repr(vals[:head.count('?')])
+            sql = head
+        out.append((sql, args))
+    return out
 
 def opsig(op):
     if op[0] == 'create':
@@ -81,14 +102,14 @@ def worker(args):
     sub = core.Sub()
     env = sx.Env(catalog.by_name(name))
     rel = name.split('-')[0]
-    ops = [op for op in env.ops() if op[0] != 'qdel']
+    ops = [op for op in env.ops() if op[0] != 'qdel'] + env.shaping_reads()
     ex = sx.Explorer(env, fixtures=(fixture,), ops=ops)
     presigs = {}
     def visit(env_, fixture, hist, x):
         op = hist[-1]
         if op[0] not in WATCH or x.obs[-1][0] != 'exc': return
         sub.count('failing_calls_seen')
-        if x.died:
+        if x.died or x.obs[-1][1] in FLUSH_EXC:
             sub.count('failures_raised_by_implicit_flush_skipped'); return
         a, b = twins(env, fixture, hist[:-1], op)
         d = compare(env, a, b)
